@@ -128,7 +128,7 @@ fn cmd_chain(a: &Args) {
     let mut out = Out::new(&a.s("out", "chain.ndjson"));
     let net = drive::net_of(&a.s("net", "custom02"));
     let fm: u128 = a.s("feemult", "1000").parse().unwrap();
-    chaindrive::chain_history(&mut out, &a.s("tag", "chain"), a.u64("seed", 1), net, a.u64("blocks", 6) as usize, fm);
+    chaindrive::chain_history(&mut out, &a.s("tag", "chain"), a.u64("seed", 1), net, a.u64("blocks", 6) as usize, fm, a.u64("big", 0) == 1);
     let n = out.finish();
     println!("{}", json!({"records": n}));
 }
